@@ -1,0 +1,14 @@
+//go:build verif
+
+package cli
+
+// SimYield is a scheduling hook used only by the deterministic simulation
+// harness (build tag "verif"). When set, goroutines started by Bulk call it at
+// the named points so that a simulator can decide which of them proceeds.
+var SimYield func(owner any, point string, seq int64)
+
+func simYield(owner any, point string, seq int64) {
+	if f := SimYield; f != nil {
+		f(owner, point, seq)
+	}
+}
